@@ -85,6 +85,8 @@ func (m *MLDv2MulticastListenerQueryMessage) DecodeFromBytes(data []byte, df gop
 
 		m.SourceAddresses = append(m.SourceAddresses, data[begin:end])
 	}
+	end = 24 + int(m.NumberOfSources)*16
+	m.BaseLayer = BaseLayer{Contents: data[:end], Payload: data[end:]}
 
 	return nil
 }
@@ -328,6 +330,7 @@ func (m *MLDv2MulticastListenerReportMessage) DecodeFromBytes(data []byte, df go
 
 		begin += read
 	}
+	m.BaseLayer = BaseLayer{Contents: data[:begin], Payload: data[begin:]}
 
 	return nil
 }
